@@ -90,6 +90,53 @@ pub fn layout_facts(layout: &str) -> Option<LayoutFacts> {
     })
 }
 
+/// (segment index, cells per instance, capacity in instances or None if not modelled) for every
+/// builtin of `layout`, static or dynamic, given the trace exponent.
+pub fn builtin_capacities(layout: &str, pi: &PublicInput, log_trace: u64) -> Option<(usize, Vec<(usize, u64, Option<BigUint>)>)> {
+    let trace_len = BigUint::from(1u32) << (log_trace as usize);
+    if layout == "dynamic" {
+        let dp: std::collections::BTreeMap<String, u64> = dynamic_params_in_field_order(pi).into_iter().collect();
+        if dp.is_empty() {
+            return None;
+        }
+        let table: [(usize, u64, &str, &str); 10] = [
+            (3, 3, "uses_pedersen_builtin", "pedersen_builtin_row_ratio"),
+            (4, 1, "uses_range_check_builtin", "range_check_builtin_row_ratio"),
+            (5, 2, "uses_ecdsa_builtin", "ecdsa_builtin_row_ratio"),
+            (6, 5, "uses_bitwise_builtin", "bitwise_row_ratio"),
+            (7, 7, "uses_ec_op_builtin", "ec_op_builtin_row_ratio"),
+            (8, 16, "uses_keccak_builtin", "keccak_row_ratio"),
+            (9, 6, "uses_poseidon_builtin", "poseidon_row_ratio"),
+            (10, 1, "uses_range_check96_builtin", "range_check96_builtin_row_ratio"),
+            (11, 7, "uses_add_mod_builtin", "add_mod_row_ratio"),
+            (12, 7, "uses_mul_mod_builtin", "mul_mod_row_ratio"),
+        ];
+        let mut v = Vec::new();
+        for (seg, cells, uses, ratio) in table {
+            let cap = match (dp.get(uses), dp.get(ratio)) {
+                (Some(0), _) => Some(BigUint::from(0u32)),
+                (Some(_), Some(r)) if *r > 0 && (&trace_len % BigUint::from(*r)) == BigUint::from(0u32) => Some(&trace_len / BigUint::from(*r)),
+                _ => None,
+            };
+            v.push((seg, cells, cap));
+        }
+        return Some((13, v));
+    }
+    let facts = layout_facts(layout)?;
+    let mut v: Vec<(usize, u64, Option<BigUint>)> = facts
+        .builtins
+        .iter()
+        .map(|(seg, cells, rows)| {
+            let cap = if (&trace_len % BigUint::from(*rows)) == BigUint::from(0u32) { Some(&trace_len / BigUint::from(*rows)) } else { None };
+            (*seg, *cells, cap)
+        })
+        .collect();
+    if layout == "starknet_with_keccak" {
+        v.push((8, 16, None)); // batched keccak: capacity not modelled
+    }
+    Some((facts.n_segments, v))
+}
+
 #[derive(Debug, Clone, PartialEq)]
 pub enum Verdict3 {
     MustAccept,
@@ -104,16 +151,26 @@ fn big(f: &Felt) -> BigUint {
 /// The C14 validation predicate for the static layouts, three-valued: only clauses the property
 /// makes explicit decide; everything else is NotStated.
 pub fn ref_validate_public_input(pi: &PublicInput, layout: &str, log_trace: &Felt) -> Verdict3 {
-    let Some(facts) = layout_facts(layout) else { return Verdict3::NotStated("no model for this layout".into()) };
     let lt = big(log_trace);
     let ls = big(&pi.log_n_steps);
     if lt > BigUint::from(64u32) {
         return Verdict3::NotStated("huge trace exponent".into());
     }
-    if ls.clone() + BigUint::from(4u32) != lt {
+    let lt_u: u64 = lt.to_u64_digits().first().copied().unwrap_or(0);
+    let step_log = if layout == "dynamic" {
+        let dp: std::collections::BTreeMap<String, u64> = dynamic_params_in_field_order(pi).into_iter().collect();
+        match dp.get("cpu_component_step") {
+            Some(s) if s.is_power_of_two() => s.trailing_zeros() as u64,
+            _ => return Verdict3::NotStated("cpu_component_step".into()),
+        }
+    } else {
+        0
+    };
+    let Some((n_segments, builtins)) = builtin_capacities(layout, pi, lt_u) else { return Verdict3::NotStated("no model for this layout".into()) };
+    if ls.clone() + BigUint::from(4 + step_log) != lt {
         return Verdict3::MustReject("step count does not match the trace length".into());
     }
-    if pi.segments.len() != facts.n_segments {
+    if pi.segments.len() != n_segments {
         return Verdict3::MustReject("segment count".into());
     }
     if pi.layout != Felt::from_bytes_be_slice(layout.as_bytes()) {
@@ -126,9 +183,8 @@ pub fn ref_validate_public_input(pi: &PublicInput, layout: &str, log_trace: &Fel
     if rmin == rmax {
         return Verdict3::NotStated("equal range-check bounds".into());
     }
-    let trace_len = BigUint::from(1u32) << (lt.to_u64_digits().first().copied().unwrap_or(0) as usize);
     let mut not_stated = None;
-    for (seg, cells, rows) in facts.builtins {
+    for (seg, cells, cap) in &builtins {
         let s = &pi.segments[*seg];
         let (b, e) = (big(&s.begin_addr), big(&s.stop_ptr));
         if e < b {
@@ -139,24 +195,16 @@ pub fn ref_validate_public_input(pi: &PublicInput, layout: &str, log_trace: &Fel
             return Verdict3::MustReject(format!("segment {seg}: not a whole number of instances"));
         }
         let instances = used / BigUint::from(*cells);
-        if &trace_len % BigUint::from(*rows) != BigUint::from(0u32) {
-            not_stated = Some(format!("trace length not divisible by row ratio of segment {seg}"));
-            continue;
+        match cap {
+            Some(c) => {
+                if instances > *c {
+                    return Verdict3::MustReject(format!("segment {seg}: more instances than the trace holds"));
+                }
+            }
+            None => {
+                not_stated.get_or_insert(format!("capacity of segment {seg} not modelled"));
+            }
         }
-        if instances > &trace_len / BigUint::from(*rows) {
-            return Verdict3::MustReject(format!("segment {seg}: more instances than the trace holds"));
-        }
-    }
-    if layout == "starknet_with_keccak" {
-        let s = &pi.segments[8];
-        let (b, e) = (big(&s.begin_addr), big(&s.stop_ptr));
-        if e < b || (e - b) % BigUint::from(16u32) != BigUint::from(0u32) {
-            return Verdict3::MustReject("keccak segment: not a whole number of instances".into());
-        }
-        not_stated.get_or_insert("keccak capacity not modelled".to_string());
-        // capacity of the batched keccak builtin is not modelled; if everything else is fine the
-        // recorded inputs are still required to be accepted (see caller)
-        return Verdict3::NotStated("keccak capacity not modelled".into());
     }
     // output segment: any size is allowed by the statement (no instance structure)
     let o = &pi.segments[2];
